@@ -249,7 +249,9 @@ func newSys(w *hist.W, cfg []uint64) *sys {
 		// which two timers due within the same millisecond fire in creation order (DESIGN.md 9.9)
 		s.realBO = true
 		s.maxFail = 5
-		opts = append(opts, routine.WithRetry(&ubackoff.Backoff{}))
+		retry := routine.WithRetry(&ubackoff.Backoff{})
+		s.decoy(retry)
+		opts = append(opts, retry)
 	}
 	if cfg[3] == 2 {
 		// the real thing: routine.WithRetry with a configuration of the backoff package (constant kind, cfg[5] ms, 0 = unset);
@@ -259,8 +261,10 @@ func newSys(w *hist.W, cfg []uint64) *sys {
 		if len(cfg) > 5 {
 			d = cfg[5]
 		}
-		opts = append(opts, routine.WithRetry(&ubackoff.Backoff{BackoffKind: ubackoff.BackoffKind_BackoffKind_CONSTANT,
-			Constant: &ubackoff.Constant{Interval: uint32(d)}}))
+		retry := routine.WithRetry(&ubackoff.Backoff{BackoffKind: ubackoff.BackoffKind_BackoffKind_CONSTANT,
+			Constant: &ubackoff.Constant{Interval: uint32(d)}})
+		s.decoy(retry)
+		opts = append(opts, retry)
 	}
 	if s.variant {
 		var cmp func(a, b uint64) bool
@@ -325,6 +329,22 @@ func newSys(w *hist.W, cfg []uint64) *sys {
 	broadcast.VerifHook = s.c.HookFor("broadcast", []int{0, 2}, []int{1, 3})
 	routine.VerifHook = s.c.HookFor("routine", nil, nil)
 	return s
+}
+
+// decoy applies the SAME Option value to another container first and lets that one fail once (so that its back-off has
+// handed out one interval) before the container under test is built: an Option is a reusable value, and every container
+// it configures follows its own back-off sequence.  Runs before the hooks are installed; the decoy is stopped (its
+// retry timer with it) before the history starts.
+func (s *sys) decoy(retry routine.Option) {
+	d := routine.NewRoutineContainer(retry)
+	d.SetRoutine(func(ctx context.Context) error { return errors.New("decoy fails") })
+	ctx, cancel := context.WithCancel(context.Background())
+	d.SetContext(ctx, false)
+	synctest.Wait()
+	d.ClearContext()
+	cancel()
+	synctest.Wait()
+	s.w.Count("cfg.retry_option_shared_with_a_decoy_container", 1)
 }
 
 // userFn is the body of every managed routine.
